@@ -942,16 +942,16 @@ static Region huge_pattern(size_t total, const uint8_t *pat, size_t patlen)
     size_t rounded = (total + HCHUNK - 1) / HCHUNK * HCHUNK, off;
     int fd = memfd_create("drvhuge", 0);
     uint8_t *tmp;
-    if (fd < 0 || ftruncate(fd, (off_t)HCHUNK) != 0) { perror("memfd"); _exit(2); }
+    if (fd < 0 || ftruncate(fd, (off_t)HCHUNK) != 0) { perror("memfd"); _exit(3); }
     tmp = mmap(NULL, HCHUNK, PROT_READ | PROT_WRITE, MAP_SHARED, fd, 0);
-    if (tmp == MAP_FAILED) { perror("mmap"); _exit(2); }
+    if (tmp == MAP_FAILED) { perror("mmap"); _exit(3); }
     for (off = 0; off < HCHUNK; off += patlen) memcpy(tmp + off, pat, patlen);
     munmap(tmp, HCHUNK);
     r.maplen = rounded + PAGE;
     r.base = mmap(NULL, r.maplen, PROT_NONE, MAP_PRIVATE | MAP_ANONYMOUS | MAP_NORESERVE, -1, 0);
-    if (r.base == MAP_FAILED) { perror("mmap"); _exit(2); }
+    if (r.base == MAP_FAILED) { perror("mmap"); _exit(3); }
     for (off = 0; off < rounded; off += HCHUNK)
-        if (mmap(r.base + off, HCHUNK, PROT_READ, MAP_SHARED | MAP_FIXED, fd, 0) == MAP_FAILED) { perror("mmap"); _exit(2); }
+        if (mmap(r.base + off, HCHUNK, PROT_READ, MAP_SHARED | MAP_FIXED, fd, 0) == MAP_FAILED) { perror("mmap"); _exit(3); }
     close(fd);
     /* the pattern period divides the distance to the end, so the region still starts on a pattern boundary
        whenever total is a multiple of patlen */
@@ -966,8 +966,8 @@ static Region huge_anon(size_t total, int writable)
     size_t rounded = (total + PAGE - 1) / PAGE * PAGE;
     r.maplen = rounded + 2 * PAGE;
     r.base = mmap(NULL, r.maplen, PROT_NONE, MAP_PRIVATE | MAP_ANONYMOUS | MAP_NORESERVE, -1, 0);
-    if (r.base == MAP_FAILED) { perror("mmap"); _exit(2); }
-    if (mprotect(r.base + PAGE, rounded, writable ? (PROT_READ | PROT_WRITE) : PROT_READ) != 0) { perror("mprotect"); _exit(2); }
+    if (r.base == MAP_FAILED) { perror("mmap"); _exit(3); }
+    if (mprotect(r.base + PAGE, rounded, writable ? (PROT_READ | PROT_WRITE) : PROT_READ) != 0) { perror("mprotect"); _exit(3); }
     r.ptr = r.base + PAGE + (rounded - total);
     return r;
 }
